@@ -49,69 +49,81 @@ fn manifest(m: &Member) -> String {
 }
 
 /// Writes the workspace and builds it. `build_examples`: also compile (and link) the example programs.
+/// Members whose libraries have the same name (same service name) are built in different rounds: cargo lifts
+/// `lib<name>.rlib` into one directory per target dir, and two members lifting the same file name in one
+/// invocation can be mixed up.
 pub fn build(tag: &str, members: &[Member], build_examples: bool) -> Result<(PathBuf, BTreeMap<String, MemberResult>), String> {
     let ws = workspace_dir(tag);
     let _ = std::fs::remove_dir_all(&ws);
     std::fs::create_dir_all(&ws).map_err(|e| e.to_string())?;
-    let mut names = vec![];
     for m in members {
         let d = ws.join(&m.pkg);
         crate::pipeline::write_tree(&d, &m.tree);
         std::fs::create_dir_all(d.join("examples")).ok();
         for (e, src) in &m.extra_examples { std::fs::write(d.join("examples").join(format!("{e}.rs")), src).map_err(|e| e.to_string())?; }
         std::fs::write(d.join("Cargo.toml"), manifest(m)).map_err(|e| e.to_string())?;
-        names.push(format!("\"{}\"", m.pkg));
     }
-    std::fs::write(ws.join("Cargo.toml"), format!("[workspace]\nmembers = [{}]\nresolver = \"2\"\n[profile.dev]\ndebug = false\nopt-level = 0\nincremental = false\n", names.join(", "))).map_err(|e| e.to_string())?;
     let _ = std::fs::copy("/repo/Cargo.lock", ws.join("Cargo.lock"));
+    let mut rounds: Vec<Vec<&Member>> = vec![];
+    for m in members {
+        match rounds.iter_mut().find(|r| !r.iter().any(|x| x.lib == m.lib)) { Some(r) => r.push(m), None => rounds.push(vec![m]) }
+    }
+    let mut res: BTreeMap<String, MemberResult> = members.iter().map(|m| (m.pkg.clone(), MemberResult::default())).collect();
+    for round in &rounds {
+        let names: Vec<String> = round.iter().map(|m| format!("\"{}\"", m.pkg)).collect();
+        std::fs::write(ws.join("Cargo.toml"), format!("[workspace]\nmembers = [{}]\nresolver = \"2\"\n[profile.dev]\ndebug = false\nopt-level = 0\nincremental = false\n", names.join(", "))).map_err(|e| e.to_string())?;
+        build_round(tag, &ws, round, members, build_examples, &mut res)?;
+    }
+    Ok((ws, res))
+}
+
+fn build_round(tag: &str, ws: &Path, round: &[&Member], members: &[Member], build_examples: bool, res: &mut BTreeMap<String, MemberResult>) -> Result<(), String> {
     let target = target_dir(tag);
     let mut args = vec![if build_examples { "build" } else { "check" }, "--offline", "--workspace", "--lib", "--keep-going", "--message-format=json"];
     if build_examples { args.push("--examples"); }
-    let mut res: BTreeMap<String, MemberResult> = members.iter().map(|m| (m.pkg.clone(), MemberResult::default())).collect();
-    let mut saw_any = false;
-    let mut out = Command::new("cargo").args(&args).current_dir(&ws)
+    let run = || Command::new("cargo").args(&args).current_dir(ws)
         .env("CARGO_TARGET_DIR", &target).env("CARGO_NET_OFFLINE", "true").env("RUSTFLAGS", "-Awarnings")
-        .stdin(Stdio::null()).output().map_err(|e| format!("cargo: {e}"))?;
+        .stdin(Stdio::null()).output().map_err(|e| format!("cargo: {e}"));
+    let mut out = run()?;
+    let mut saw_any = false;
     // a second pass when cargo left a target unattempted without reporting an error for it (an interrupted or
     // partially scheduled build must not be mistaken for a property of the generated code)
     for pass in 0..2 {
-    if pass == 1 {
-        let incomplete = build_examples && members.iter().any(|m| { let r = &res[&m.pkg]; r.lib_errors.is_empty() && example_stems(&m.tree).iter().chain(m.extra_examples.iter().map(|e| &e.0)).any(|e| !r.built_examples.contains(e) && !r.example_errors.contains_key(e)) });
-        if !incomplete { break; }
-        out = Command::new("cargo").args(&args).current_dir(&ws)
-            .env("CARGO_TARGET_DIR", &target).env("CARGO_NET_OFFLINE", "true").env("RUSTFLAGS", "-Awarnings")
-            .stdin(Stdio::null()).output().map_err(|e| format!("cargo: {e}"))?;
-        for r in res.values_mut() { *r = MemberResult::default(); }
-    }
-    let stdout = String::from_utf8_lossy(&out.stdout).to_string();
-    for line in stdout.lines() {
-        let Ok(v) = serde_json::from_str::<Value>(line) else { continue };
-        saw_any = true;
-        let reason = v["reason"].as_str().unwrap_or("");
-        let pkg = member_of(&v["package_id"].as_str().unwrap_or(""), members);
-        let Some(pkg) = pkg else { continue };
-        let kind = v["target"]["kind"][0].as_str().unwrap_or("");
-        let tname = v["target"]["name"].as_str().unwrap_or("").to_string();
-        let r = res.get_mut(&pkg).unwrap();
-        if reason == "compiler-message" && v["message"]["level"].as_str() == Some("error") {
-            let text = v["message"]["rendered"].as_str().unwrap_or("").lines().take(6).collect::<Vec<_>>().join("\n");
-            if kind == "example" { r.example_errors.entry(tname.strip_prefix(&format!("{pkg}_")).unwrap_or(&tname).to_string()).or_default().push(text); }
-            else { r.lib_errors.push(text); }
+        if pass == 1 {
+            let incomplete = build_examples && round.iter().any(|m| { let r = &res[&m.pkg]; r.lib_errors.is_empty() && example_stems(&m.tree).iter().chain(m.extra_examples.iter().map(|e| &e.0)).any(|e| !r.built_examples.contains(e) && !r.example_errors.contains_key(e)) });
+            if !incomplete { break; }
+            out = run()?;
+            for m in round { *res.get_mut(&m.pkg).unwrap() = MemberResult::default(); }
         }
-        if reason == "compiler-artifact" && kind == "example" && v["executable"].is_string() {
-            r.built_examples.push(tname.strip_prefix(&format!("{pkg}_")).unwrap_or(&tname).to_string());
+        let stdout = String::from_utf8_lossy(&out.stdout).to_string();
+        for line in stdout.lines() {
+            let Ok(v) = serde_json::from_str::<Value>(line) else { continue };
+            saw_any = true;
+            let reason = v["reason"].as_str().unwrap_or("");
+            let pkg = member_of(&v["package_id"].as_str().unwrap_or(""), members);
+            let Some(pkg) = pkg else { continue };
+            let kind = v["target"]["kind"][0].as_str().unwrap_or("");
+            let tname = v["target"]["name"].as_str().unwrap_or("").to_string();
+            let r = res.get_mut(&pkg).unwrap();
+            if reason == "compiler-message" && v["message"]["level"].as_str() == Some("error") {
+                let text = v["message"]["rendered"].as_str().unwrap_or("").lines().take(6).collect::<Vec<_>>().join("\n");
+                if kind == "example" { r.example_errors.entry(tname.strip_prefix(&format!("{pkg}_")).unwrap_or(&tname).to_string()).or_default().push(text); }
+                else { r.lib_errors.push(text); }
+            }
+            if reason == "compiler-artifact" && kind == "example" && v["executable"].is_string() {
+                r.built_examples.push(tname.strip_prefix(&format!("{pkg}_")).unwrap_or(&tname).to_string());
+            }
         }
-    }
     }
     if !saw_any && !out.status.success() {
         return Err(format!("cargo produced no messages: {}", String::from_utf8_lossy(&out.stderr).chars().take(2000).collect::<String>()));
     }
     // a failure cargo reports without a compiler message (manifest / resolution problems) must not pass silently
     let stderr = String::from_utf8_lossy(&out.stderr);
-    if !out.status.success() && res.values().all(|r| r.lib_errors.is_empty() && r.example_errors.is_empty()) {
+    if !out.status.success() && round.iter().all(|m| { let r = &res[&m.pkg]; r.lib_errors.is_empty() && r.example_errors.is_empty() }) {
         return Err(format!("cargo failed without compiler errors: {}", stderr.chars().take(2000).collect::<String>()));
     }
-    Ok((ws, res))
+    Ok(())
 }
 
 pub fn target_dir(tag: &str) -> PathBuf { PathBuf::from(concat!(env!("CARGO_MANIFEST_DIR"), "/target")).join(format!("gencrates-{tag}")) }
